@@ -78,7 +78,11 @@ int main(int argc, char **argv) {
         for (FileMode m : modes) for (int force = 0; force < 2; force++) {
             std::string p = vf::scratch_file("w.h5");
             copy_file(base, p);
-            if (!set_version_attr(p, v)) { fprintf(stderr, "C10: cannot write version attribute\n"); return 2; }
+            if (!set_version_attr(p, v)) {
+                // the harness itself only ever closes what it opens: the file can only be busy because the library kept it open
+                vf::violation("C10|File::open|the file of an earlier (refused or closed) open is still held open by the library|version attribute cannot be rewritten", "stored=" + vs(v) + " mode " + mode_name(m));
+                break;
+            }
             std::string before = slurp(p);
             bool expect = force || m == FileMode::Overwrite ||
                           (m == FileMode::ReadOnly && v[0] == L[0] && v[1] <= L[1]) ||
@@ -110,6 +114,13 @@ int main(int argc, char **argv) {
                 }
             } else if (slurp(p) != before) {
                 vf::violation(std::string("C10|File::open|") + mode_name(m) + "|refused open changed the file", ctx);
+            }
+            if (!opened && !expect) {
+                // "the Force flag bypasses the check": also for the file that has just been refused, in the same process
+                bool again = false; std::string w2;
+                std::string e2 = vf::guarded([&] { File f = File::open(p, FileMode::ReadWrite, "hdf5", Compression::Auto, OpenFlags::Force); again = f.isOpen() && f.blockCount() == 1; f.close(); }, &w2);
+                vf::count("opens");
+                if (!again) vf::violation(std::string("C10|File::open|ReadWrite+Force directly after a refused ") + mode_name(m) + " open of the same file|" + cls + "|refused but must open", ctx + ": " + e2 + " " + w2);
             }
         }
         if (ci < 3) vf::sample("{\"stored\":" + vf::jstr(vs(v)) + ",\"library\":" + vf::jstr(vs(L)) + ",\"modes\":\"RO,RW,OW x Force off/on\"}");
